@@ -24,7 +24,7 @@ INTS = st.one_of(st.integers(-3, 20), st.sampled_from([0, 1, -1, 255, 2**31, -2*
 FLOATS = st.one_of(st.sampled_from([0.0, -0.0, 1.5, -2.25, 1e22, 1e-7, float('inf'), float('-inf'), 3.0, 0.1]),
                    st.floats(allow_nan=False, allow_infinity=False, width=64))
 SCALARS = st.one_of(st.none(), st.booleans(), INTS, FLOATS, STRINGS)
-SIMPLE_SCALARS = st.one_of(st.none(), st.booleans(), st.integers(-3, 9), st.sampled_from([1.5, -0.5]), st.sampled_from(['a', 'b', 's', '', 'yes']))
+SIMPLE_SCALARS = st.one_of(st.none(), st.booleans(), st.integers(-3, 9), st.sampled_from([1.5, -0.5, 1.0, 0.0]), st.sampled_from(['a', 'b', 's', '', 'yes']))
 QUOTES = st.sampled_from(['plain', 'plain', 'single', 'double', 'alt', 'block'])
 
 _forbidden = None
@@ -108,6 +108,10 @@ def mutate(draw, node, fresh, keys, p_depth=0, neg=True):
             return tdoc.sq([draw(mutate(v, fresh, keys, p_depth + 1, neg)) for v in node['items'][:draw(st.integers(0, len(node['items'])))]],
                            flow=draw(st.booleans()))
         return draw(fresh)
+    if node['t'] == 'sc' and not isinstance(node['v'], str) and node['v'] in (0, 1) and draw(st.integers(0, 2)) == 0:
+        # the "same" number in another type (1 / true / 1.0 compare equal in python but are different yaml values)
+        twins = [x for x in ([1, True, 1.0] if node['v'] == 1 else [0, False, 0.0]) if type(x) is not type(node['v'])]
+        return tdoc.sc(twins[draw(st.integers(0, 1))])
     return draw(fresh) if draw(st.booleans()) else dict(node)
 
 
